@@ -667,7 +667,33 @@ fn parse_ident_like(text: &str) -> IResult<&str, Token> {
     // If the next character is '(', then it's a function token
     let match_bracket: IResult<_, _> = tag("(")(rest);
     match match_bracket {
-        Ok((rest_f, _)) => Ok((rest_f, Token::Function(ident.into()))),
+        Ok((rest_f, _)) => {
+            if ident.eq_ignore_ascii_case("url") {
+                // An unquoted url(...) is one token: its contents (which may
+                // hold ';', ',' or '}' as in data: URLs) are not CSS syntax.
+                let arg = rest_f.trim_start();
+                if !arg.starts_with('"') && !arg.starts_with('\'') {
+                    let mut chars = arg.char_indices();
+                    let mut end = arg.len();
+                    let mut after = arg.len();
+                    while let Some((i, c)) = chars.next() {
+                        match c {
+                            ')' => {
+                                end = i;
+                                after = i + 1;
+                                break;
+                            }
+                            '\\' => {
+                                chars.next();
+                            }
+                            _ => {}
+                        }
+                    }
+                    return Ok((&arg[after..], Token::Url(arg[..end].trim_end().into())));
+                }
+            }
+            Ok((rest_f, Token::Function(ident.into())))
+        }
         Err(_) => Ok((rest, Token::Ident(ident.into()))),
     }
 }
